@@ -287,8 +287,22 @@ def replay_case(ctx, case):
     return run_case(ctx, case)
 
 
+HIGH_ORDER_FNS = ['exp', 'exp2', 'expm1', 'log', 'log2', 'log10', 'log1p', 'sqrt', 'reciprocal', 'sin', 'cos', 'sinh', 'cosh', 'arctanh']
+
+
 def run(ctx):
     names = sorted(T)
+    # high orders (beyond 20!, where a factorial no longer fits into 64-bit integers) of the functions whose closed form is a
+    # single term (no cancellation): the same closed form of the model, in exact rational arithmetic
+    for name in [n_ for n_ in HIGH_ORDER_FNS if n_ in T]:
+        for n_ in (16, 21, 22, 25, 30):
+            case = gen_case(ctx.rng, ctx.tier, name)
+            case['n'] = n_
+            ctx.evaluations += 1
+            ctx.count('fn=' + name, 'high-order')
+            f = run_case(ctx, case)
+            if f:
+                ctx.report(case, 'failure', f)
     n = len(names) * (10 if ctx.tier == 'quick' else 150)
     for i in range(n):
         case = gen_case(ctx.rng, ctx.tier, names[i % len(names)])
